@@ -24,7 +24,9 @@
 # evaluates the composed integer conversions over the finite int16 domain.
 # R7 evaluates tdma_sched_reset concretely (same transfer functions, constant
 # folding through the CFG) for every ring position and collects the set of
-# buckets whose fill count ends as 0.
+# buckets whose fill count ends as 0; a branch on anything but the ring position
+# (statistics of what is dropped, log lines) is run down both arms to its
+# post-dominator, where the arms must agree on the fill-count writes.
 # R8 runs tdma_schedule_set concretely (same transfer functions, class Replay) over small witness sets with empty
 # frames and compares the bucket every item lands in with (cur + offset + markers before it) mod ring.
 # R9 evaluates the sort helper for every fill level (counters concrete, priority comparisons followed both ways) and
@@ -77,8 +79,10 @@ EXPLANATION = (
     "item field prio, every temporary (scalar, or element of a local key array) and every integral conversion up to the two operands of the sort's "
     "comparison (resolved, desugared clang types) compose to a chain that preserves the order of all int16 "
     "priorities -- evaluated over the 65536-value domain, violations come with a concrete pair (R6); "
-    "tdma_sched_reset, whose control flow depends on the ring position only, is evaluated concretely for each "
-    "of the 25 positions and leaves num_items = 0 in every bucket other than the current one (R7); "
+    "tdma_sched_reset is evaluated concretely for each of the 25 ring positions (branches that are functions of the "
+    "position followed; any other branch -- on a fill count, a counter of dropped items -- run down both arms to its "
+    "post-dominator, where both must have made the same fill-count writes, the locals they disagree on being unknown "
+    "from there on) and leaves num_items = 0 in every bucket other than the current one (R7); "
     "tdma_schedule_set, whose control flow depends on the kind of the set entries and the fill counts only, is run "
     "concretely over all 31 witness sets of up to four entries over {item, END_FRAME} (empty frames, leading / trailing / "
     "consecutive markers) at three (ring position, offset, fill level) points and copies every item entry into bucket "
@@ -3917,19 +3921,66 @@ def resolve(t, load):
     return (k,) + sub
 
 
+REPLAY_FORKS = 12
+
+
+def post_dominators(g):
+    """node id -> immediate post-dominator (CFG node) with respect to g.exit, for the nodes the exit is reachable
+    from (an edge into a part of the graph that never reaches the exit is ignored: the replay runs into its step
+    limit there)."""
+    live = {g.exit.id}
+    work = [g.exit]
+    while work:
+        n = work.pop()
+        for (p, _l) in n.pred:
+            if p.id not in live:
+                live.add(p.id)
+                work.append(p)
+    nodes = [n for n in g.nodes if n.id in live]
+    pd = {n.id: ({n.id} if n is g.exit else set(live)) for n in nodes}
+    changed = True
+    while changed:
+        changed = False
+        for n in nodes:
+            if n is g.exit:
+                continue
+            ss = [pd[x.id] for (x, _l) in n.succ if x.id in live]
+            new = (set.intersection(*ss) if ss else set()) | {n.id}
+            if new != pd[n.id]:
+                pd[n.id] = new
+                changed = True
+    by_id = {n.id: n for n in nodes}
+    ipd = {}
+    for n in nodes:
+        strict = pd[n.id] - {n.id}
+        for d in strict:
+            if pd[d] == strict:
+                ipd[n.id] = by_id[d]
+    return ipd
+
+
 def replay_reset(a, name, cur):
-    """Concrete run of `name`() through its CFG with sched->cur_bucket == cur (the function has no other input
-    that its control flow may depend on): -> {bucket index: last constant written to its num_items}."""
+    """Run of `name`() through its CFG with sched->cur_bucket == cur: -> {bucket index: last constant written to its
+    num_items}.  Branches whose condition folds to a constant for this ring position (loop bounds, comparisons with
+    cur_bucket, wrap_bucket) are followed concretely.  A branch on anything else (a fill count, a statistics counter)
+    cannot be decided -- and need not be when it has no influence on the scheduler state: both arms are run, each
+    concretely, up to the branch's immediate post-dominator (the first node every path from the branch passes), and
+    must arrive there with the same fill-count writes; the locals the arms leave with different values (counters of
+    dropped items, ...) are unknown from there on.  An unknown value that later reaches a write to the scheduler (index or
+    value) or a branch whose arms differ in their writes gives no verdict; output calls have no effect on the ring.
+    Sound for every content of the ring: each arm is executed, none is assumed."""
     fn = Fn(a.ctx, name)
     if fn.params:
         raise AnalysisError("%s(): takes parameters -- unclassifiable" % name)
     g = fn.g
     BUCKETS = ("fld", SCHED, "bucket")
-    written = {}
-    st, n, steps = {}, g.entry, 0
-    while n is not g.exit:
-        steps += 1
-        if steps > REPLAY_STEPS:
+    steps = [0]
+    ipd = []
+
+    def step(n, st, written):
+        """Execute node n: -> (condition value | None, state after n); fill-count writes go to `written`."""
+        steps[0] += 1
+        if steps[0] > REPLAY_STEPS:
             raise AnalysisError("%s(): no termination within %d steps for cur_bucket = %d" % (name, REPLAY_STEPS, cur))
         n0 = len(fn.stores)
         c0 = len(fn.calls)
@@ -3986,22 +4037,76 @@ def replay_reset(a, name, cur):
                     if not 0 <= i < a.NFR:
                         raise AnalysisError("%s(): zero fill beyond the ring" % name)
                     written[i] = 0
-        if n.kind == "cond":
-            v = concretise(val, cur)
-            if v[0] != "c":
-                raise AnalysisError("%s(): branch on %s, which is not a function of the ring position -- unclassifiable" % (
-                    name, show(v)))
-            want = v[1] != 0
-            nxt = [s for (s, l) in n.succ if l == want]
-        else:
-            nxt = [s for (s, l) in n.succ]
         for kk, vv in st.items():
             if kk[0] == "L" and isinstance(vv, tuple) and vv[0] == "c" and not 0 <= vv[1] <= 255:
                 raise AnalysisError("%s(): local %s takes the value %d, outside the range in which integer conversions "
                                     "are modelled as value-preserving" % (name, fn.keyname(kk), vv[1]))
-        if len(nxt) != 1:
-            raise AnalysisError("%s(): %d successors at a replayed node -- unclassifiable" % (name, len(nxt)))
-        n = nxt[0]
+        return (concretise(val, cur) if n.kind == "cond" else None), st
+
+    def join(at, v, arms):
+        """The state at the post-dominator `at` of a branch on the undecidable `v` whose arms ended as `arms`
+        [(state, written)]: the common fill-count writes, the common values; a local the arms disagree on is unknown."""
+        w0 = arms[0][1]
+        for (_st, w) in arms[1:]:
+            if w != w0:
+                diff = sorted(i for i in set(w) | set(w0) if w.get(i) != w0.get(i))
+                raise AnalysisError(
+                    "%s(): branch on %s, which is not a function of the ring position, and its arms differ in what they "
+                    "write to the fill count of bucket[%s] for cur_bucket = %d -- unclassifiable" % (
+                        name, show(v), ", ".join(str(i) for i in diff[:4]), cur))
+        st = {}
+        keys = set()
+        for (s, _w) in arms:
+            keys |= set(s)
+        for k in keys:
+            vals = {s.get(k) for (s, _w) in arms}
+            if len(vals) == 1:
+                x = vals.pop()
+                if x is not None:
+                    st[k] = x
+            elif k[0] == "L":
+                st[k] = ("top",)
+            else:
+                st[k] = ("mv", name, at.id, "join %s" % (k[1:],))
+        return st, dict(w0)
+
+    def run(n, st, written, stop, depth):
+        """Replay from node n until `stop` is reached: -> (state, written) on arrival."""
+        while n is not stop:
+            if n is g.exit or not n.succ:
+                raise AnalysisError("%s(): a path leaves the function without passing the join of an undecided branch "
+                                    "-- unclassifiable" % name)
+            v, st = step(n, st, written)
+            if n.kind == "cond":
+                if v[0] != "c":
+                    if not ipd:
+                        ipd.append(post_dominators(g))
+                    at = ipd[0].get(n.id)
+                    if at is None or depth >= REPLAY_FORKS:
+                        raise AnalysisError("%s(): branch on %s, which is not a function of the ring position%s -- "
+                                            "unclassifiable" % (name, show(v), "" if at is None else
+                                                                " (more than %d nested)" % REPLAY_FORKS))
+                    arms = []
+                    for want in (True, False):
+                        nxt = [s for (s, l) in n.succ if l == want]
+                        if len(nxt) != 1:
+                            raise AnalysisError("%s(): %d successors at a replayed node -- unclassifiable" % (name, len(nxt)))
+                        arms.append(run(nxt[0], dict(st), dict(written), at, depth + 1))
+                    st, w = join(at, v, arms)
+                    written.clear()
+                    written.update(w)
+                    n = at
+                    continue
+                want = v[1] != 0
+                nxt = [s for (s, l) in n.succ if l == want]
+            else:
+                nxt = [s for (s, l) in n.succ]
+            if len(nxt) != 1:
+                raise AnalysisError("%s(): %d successors at a replayed node -- unclassifiable" % (name, len(nxt)))
+            n = nxt[0]
+        return st, written
+
+    _st, written = run(g.entry, {}, {}, g.exit, 0)
     return written, fn
 
 
@@ -4009,11 +4114,12 @@ def r7_reset(a):
     """C08.R7 -- decides a necessary condition of "nothing runs in a frame it was not scheduled for" over
     histories that contain reset operations: after tdma_sched_reset() no bucket other than the current one
     (which the running tdma_sched_execute empties itself, R4) may still hold items scheduled before the reset.
-    The function's control flow depends on the ring position only, so it is evaluated concretely (constant
-    folding through its CFG, helper results inlined) for each of the ARRAY_SIZE(bucket) positions; the set of
-    bucket indices whose num_items ends as 0 must contain every index except possibly cur_bucket.  Which loop
-    form, index expression (absolute counter, offset through wrap_bucket, ...) or temporaries are used is
-    irrelevant; anything that cannot be evaluated is an AnalysisError."""
+    The function is evaluated concretely (constant folding through its CFG, helper results inlined) for each of
+    the ARRAY_SIZE(bucket) positions; the set of bucket indices whose num_items ends as 0 must contain every index
+    except possibly cur_bucket.  Which loop form, index expression (absolute counter, offset through wrap_bucket,
+    ...) or temporaries are used is irrelevant, and so are statements that only feed counters / log output: a
+    branch that is not a function of the ring position is decided by running both arms (replay_reset) and
+    demanding equal writes at their join; anything that cannot be evaluated is an AnalysisError."""
     R = "C08.R7"
     name = "tdma_sched_reset"
     if name not in a.fns:
